@@ -853,4 +853,21 @@ example : WellFormed exWindow exStages where
   mod_lut := by intro f d _ h; simp [exWindow] at h
 example : (toOpt (build exWindow exStages)).isSome = true := by decide +kernel
 
+/-- a table of 65536 entries is accepted and stored with descriptor value 0 (hypothesis of `lut_roundtrip`) -/
+example : ∃ ds, lutInit 0 16 (List.replicate 65536 7) = .ok ds :=
+  (lut_init_accepts_iff 0 16 (List.replicate 65536 7)).mpr ⟨by decide, by decide, by rw [List.length_replicate]; decide, by rw [List.length_replicate], Or.inr rfl⟩
+/-- modality LUT then VOI LUT, inverted (the witness of the fixed defect 065b656) -/
+def exLuts : Params :=
+  { modality := .lut 0 [3, 2, 1, 0], voi := .lut 0 [10, 20, 40, 74], rwvm := .none, imin := 0, imax := 255, lo := 0, hi := 1 }
+example : List.map (folded exLuts ⟨false, true, true, true, false, false⟩) [0, 1, 2, 3]
+    = [.ok (.val 0), .ok (.val (17/32)), .ok (.val (27/32)), .ok (.val 1)] := by decide +kernel
+/-- an accepted integer output type: unsigned 8-bit pixels, slope -1, intercept 255 into uint8 -/
+example : checkRescaleDtype (-1) 255 true 0 255 "u" "u" 255 0 255 0 = .ok true := by decide +kernel
+/-- ... and the same inversion of 16-bit pixels is refused for int16 (the witness of the fixed defect cad4a4a) -/
+example : checkRescaleDtype (-1) 65535 true 0 65535 "i" "u" 32767 (-32768) 65535 0 = .error .value := by decide +kernel
+/-- per-frame parameters win over shared and image-level ones; uniform placement -/
+example : (⟨some 1, some 2, [some 3, some 4]⟩ : Placed Nat).find 1 = some (4, false) := by decide
+example : Uniform (⟨some 1, some 2, [some 3, some 4]⟩ : Placed Nat) 2 :=
+  Or.inl (by intro f hf; match f, hf with | 0, _ => exact ⟨3, rfl⟩ | 1, _ => exact ⟨4, rfl⟩)
+
 end HdVerif.C06
